@@ -85,9 +85,17 @@ func VerifyNameErrorNSEC(msg *dns.Msg, nsecSet []dns.RR) error {
 	}
 	for _, rr := range nsecSet {
 		nsec := rr.(*dns.NSEC)
-		if nsecCovers(nsec.Header().Name, nsec.NextDomain, wildcard) {
-			return nil
+		if !nsecCovers(nsec.Header().Name, nsec.NextDomain, wildcard) {
+			continue
 		}
+		// The same empty non-terminal rule as for QNAME: a next name below
+		// the wildcard ("x.*.<ce>") means "*.<ce>" exists. It is then the
+		// source of synthesis for QNAME and holds no data - NODATA, not a
+		// name error (RFC 4592 §2.2.2, §3.3.1).
+		if strictlyBelow(nsec.NextDomain, wildcard) {
+			continue
+		}
+		return nil
 	}
 	return ErrNSECMissingCoverage
 }
